@@ -10,7 +10,7 @@ m={
  "version":1,
  "setup_cmd":"cd /verif/govc && GOFLAGS=-mod=mod GOPROXY=off go build -o /verif/bin/govc ./cmd/govc",
  "hooks":{"guard":"verif","enable":"govc loads /repo with -tags=verif; the tag only adds pfcpiface/zz_contracts_verif.go (contracts as //@ comments, Go spec functions, ghost built-ins); no production file is instrumented",
-   "baseline_off_cmd":"cd /repo && GOFLAGS=-mod=mod GOPROXY=off go test -vet=off -count=1 ./cmd/... ./pfcpiface/... ./pkg/... ./internal/... ./logger/...",
+   "baseline_off_cmd":"cd /repo && GOFLAGS=-mod=mod GOPROXY=off go test -json -vet=off -count=1 -timeout 25m ./cmd/... ./pfcpiface/... ./pkg/... ./internal/... ./logger/...",
    "source_commits":hook_commits, "add_only":True},
  "engines":[{"name":"govc","path":"/verif/govc","serves_properties":sorted(spec.keys()),"kind_free_text":"VC generator over go/ssa of the real code; contracts as //@ comments in a tag-guarded file; obligations discharged by z3 4.8.12 / z3 5.1 / cvc5 1.0.3"}],
  "checks":[], "not_applicable":[], "notes":"see DESIGN.md; ./check <id> quick|thorough; known findings in KNOWN_FINDINGS.json; seeded changes in seeded/"
@@ -20,7 +20,7 @@ for p in props:
     if i in spec:
         mm=meta.get(i,{})
         m['checks'].append({"property_id":i,"quick_cmd":"./check %s quick"%i,"thorough_cmd":"./check %s thorough"%i,
-          "evidence_file":"/verif/evidence/%s.json"%i,"engine":"govc","replay_cmd_template":"cat {path}",
+          "evidence_file":"/verif/evidence/%s.json"%i,"engine":"govc","replay_cmd_template":"./replay {path}",
           "level_claimed":{"category":"proof","text":mm.get('text',"every obligation generated from the contracts on the real functions is discharged by an SMT solver for all inputs (no bound)"),"design_ref":"DESIGN.md section 3 "+i},
           "level_note":mm.get('note',"trusted: govc, go/ssa, the SMT solvers; assumed contracts/models of dependencies are listed in the evidence file"),
           "technique":"contract-based deductive verification: VC generation over go/ssa of the real code + SMT"})
